@@ -316,6 +316,28 @@ def oracle_C04(result):
             key = (op["c"], op["t"], op["name"])
         elif op["op"] == "GetEnd" and (op["c"], op["tok"]) in toks:
             key = (op["c"],) + toks[(op["c"], op["tok"])]
+        # the synchronous and the asynchronous lookup agree on what is there: when the optional synchronous lookup
+        # says "nothing" (None), an asynchronous lookup of the same pair in the same context, with no registration
+        # in between, does not produce an object (for an asynchronous factory the synchronous one raises instead)
+        if op["op"] == "GetNowait" and out["k"] == "NoneVal":
+            for j in range(i + 1, len(steps)):
+                o2, r2 = steps[j]["op"], steps[j]["out"]
+                if o2["op"] in ("AddResource", "AddFactory"):
+                    break
+                k2 = None
+                if o2["op"] == "GetBegin" and o2["c"] == op["c"]:
+                    k2 = (o2["t"], o2["name"])
+                elif o2["op"] == "GetEnd" and o2["c"] == op["c"]:
+                    k2 = toks.get((o2["c"], o2["tok"])) or next(
+                        ((s3["op"]["t"], s3["op"]["name"]) for s3 in steps[:j]
+                         if s3["op"]["op"] == "GetBegin" and s3["op"]["c"] == o2["c"] and s3["op"]["tok"] == o2["tok"]), None)
+                    if k2 and any(s3["op"]["op"] == "GetBegin" and s3["op"]["tok"] == o2["tok"] and s3["op"]["c"] == o2["c"]
+                                  for s3 in steps[:i]):
+                        k2 = None        # that lookup began before: something may have been registered since
+                if k2 == (op["t"], op["name"]) and r2["k"] == "Val" and r2["v"] is not None:
+                    bad.append(("C04:sync-async-disagree", f"step {i}: get_resource_nowait(optional) in context "
+                                f"{op['c']} found nothing for {k2}; the asynchronous lookup at step {j} returned {r2['v']}", i))
+                    break
         if key and out["k"] == "Val" and out["v"] is not None:
             if key in got and got[key][1] != out["v"]:
                 bad.append(("C04:callers-disagree", f"step {i}: lookup of {key[1:]} in context {key[0]} returned "
